@@ -4,6 +4,7 @@ import copy
 from types import SimpleNamespace
 
 from ..core import Prop, Suite
+from .c09 import ContextReuse
 from ..coqlit import clist, cpair, cstr, cvalue, jvalue
 
 ALPHA = ['{', '}', 'X', 'Y', '_', '/', '.', '\n', ' ', 'é', '{X}', '{Y}', '{XY}', '{}', '{Z}']
@@ -105,6 +106,45 @@ def check_tree(orig, new, g, path='$'):
     return None
 
 
+class AttrMap(dict):
+    def __getattr__(self, name):
+        if name.startswith('_') or name not in self:
+            raise AttributeError(name)
+        return self[name]
+
+
+def as_mappings(obj, kind):
+    """the same structure with every mapping an instance of a subclass of dict (OrderedDict as yaml.Loader or
+    programmatic data give them, an attribute-access dict)"""
+    if not kind:
+        return obj
+    import collections
+    cls = {'ordered': collections.OrderedDict, 'attr': AttrMap}[kind]
+    if isinstance(obj, dict):
+        return cls((k, as_mappings(v, kind)) for k, v in obj.items())
+    if isinstance(obj, list):
+        return [as_mappings(v, kind) for v in obj]
+    return obj
+
+
+def plain_mappings(obj, kind):
+    """back to plain dicts; reports a mapping whose class was not kept"""
+    if not kind:
+        return obj, None
+    import collections
+    cls = {'ordered': collections.OrderedDict, 'attr': AttrMap}[kind]
+    if isinstance(obj, dict):
+        out, lost = {}, None if type(obj) is cls else f'a {cls.__name__} became {type(obj).__name__}'
+        for k, v in obj.items():
+            out[k], l2 = plain_mappings(v, kind)
+            lost = lost or l2
+        return out, lost
+    if isinstance(obj, list):
+        items = [plain_mappings(v, kind) for v in obj]
+        return [i[0] for i in items], next((i[1] for i in items if i[1]), None)
+    return obj, None
+
+
 class Placeholders(Suite):
     name = 'search_and_replace_placeholders'
     imports = 'Value Placeholder'
@@ -123,6 +163,8 @@ class Placeholders(Suite):
             dict(obj='{{X}}', repl={'X': 'v', '{X': 'q'}, repl2={}, mode='dict'),
             dict(obj={'k': '{}'}, repl={'': 'empty'}, repl2={}, mode='dict'),
             dict(obj='}{', repl={}, repl2={}, mode='dict'),
+            dict(obj={'k': ['{X}', {'m': {'n': 'a{X}'}}]}, repl={'X': 'v'}, repl2={}, mode='dict', mappings='ordered'),
+            dict(obj=[{'k': '{X}'}], repl={'X': 'v'}, repl2={}, mode='attrs', mappings='attr'),
         ]
 
     def gen(self, rng, tier):
@@ -131,12 +173,17 @@ class Placeholders(Suite):
             repl = rand_repl(rng)
             mode = 'attrs' if attr_ok(repl) and rng.random() < 0.4 else 'dict'
             out.append(dict(obj=rand_obj(rng, rng.choice([0, 1, 2, 3, 4])), repl=repl, repl2=rand_repl(rng), mode=mode))
+            if rng.random() < 0.2:
+                out[-1]['mappings'] = rng.choice(['ordered', 'attr'])
         return out
 
     def run_impl(self, case):
         from taskchain.utils.data import search_and_replace_placeholders
-        obj = copy.deepcopy(case['obj'])
+        obj = as_mappings(copy.deepcopy(case['obj']), case.get('mappings'))
         res = search_and_replace_placeholders(obj, to_replacements(case['repl'], case['mode']))
+        res, lost = plain_mappings(res, case.get('mappings'))
+        if lost:
+            return dict(result=jvalue(res), coq=cvalue(copy.deepcopy(res)), problem=lost)
         self._last = res
         again = search_and_replace_placeholders(copy.deepcopy(res), to_replacements(case['repl2'], 'dict'))
         problem = check_tree(case['obj'], res, strs_of(case['repl']))
@@ -336,7 +383,7 @@ class UsesPaths(Suite):
 
 class C11(Prop):
     pid = 'C11'
-    suites = [Placeholders(), ConfigData(), UsesPaths()]
+    suites = [Placeholders(), ConfigData(), UsesPaths(), ContextReuse()]
     trusted_base = ["Python's re for the single pattern r'{(.*?)}' is modelled by an explicit scanner; "
                     'the correspondence compares them on brace/newline-heavy strings']
     assumptions = ['global_vars values are rendered with str(); attribute-object global_vars use identifier names '
